@@ -7,7 +7,7 @@ from typing import Dict, List, Optional, Set, Tuple
 from .ctx import Ctx
 from .model import AnalysisError, ClassInfo, FunctionInfo, ModuleInfo
 from .report import RuleResult
-from .terms import (Attr, BoundMethod, Call, ClassRef, Comp, Const, Ext, Loop, New, Op, Outcome, Store, Sub, Sym, Term,
+from .terms import (Attr, BoundMethod, Call, ClassRef, Comp, Const, Evaluator, Ext, Ite, Loop, New, Op, Outcome, Store, Sub, Sym, Term,
                     _State, alternatives, guards_repr, norm_guards, walk)
 from .util import all_terms, call_name, call_recv, method_calls, outcome_terms
 
@@ -349,6 +349,24 @@ def M3(ctx: Ctx) -> RuleResult:
                         ok = good
                 if isinstance(t, Call) and isinstance(t.func, Ext) and t.func.name == 'all' and pol:
                     ok = True
+            if not ok:
+                # scan with early exits: `for k, v in kwargs.items(): if getattr(self, k) is not v: return <copy>` ... `return self`
+                for lp in [e for e in o.effects if isinstance(e, Loop) and any(isinstance(x, Sym) and x.name.startswith('**') for x in walk(e.iter))]:
+                    def ident_of(tests):
+                        return [(tt, pp) for tt, pp in tests if isinstance(tt, Op) and tt.op in ('is', 'is not') and any(isinstance(a, Call) and isinstance(a.func, Ext) and a.func.name == 'getattr' for a in tt.args)]
+                    good = bool(lp.paths) and not any(flow == 'break' for _, flow, _, _ in lp.paths)
+                    for pg, flow, binds, effs in lp.paths:
+                        tests = norm_guards(pg)
+                        if any(isinstance(tt, Op) and tt.op in ('==', '!=') for tt, _ in tests):
+                            r.fail('HplAstObject.but:identity', 'identity shortcut compares with ==/!=: an equal but different value (other metadata / stored types) is silently dropped', fi.where)
+                            good = False
+                        if flow == 'end' and not any((tt.op == 'is') == pp for tt, pp in ident_of(tests)):
+                            good = False
+                    for rg, val in lp.returns:
+                        if val == self_t or not any((tt.op == 'is not') == pp for tt, pp in ident_of(norm_guards(rg))):
+                            good = False
+                    if good and lp.returns:
+                        ok = True
             if ok:
                 saw_identity = True
                 r.ok('identity shortcut: every getattr(self, k) is v')
@@ -388,9 +406,22 @@ def M3(ctx: Ctx) -> RuleResult:
     return r
 
 
+M4_READ_ONLY_API = ('but', 'cast', '__str__', '__repr__', 'children', 'iterate', 'reshape', 'type_check_references', 'sanity_check',
+                    'external_references', 'contains_reference', 'contains_self_reference', 'contains_definition', 'aliases', 'simple_events',
+                    'events', 'negate', 'join', 'replace_self_reference', 'replace_var_reference', 'simplify', 'split_and',
+                    'refactor_reference', 'canonical_form', 'replace_this_with_var', 'replace_var_with_this', 'get_conjuncts', 'get_disjuncts')
+
+
 def M4(ctx: Ctx) -> RuleResult:
-    r = RuleResult('M4', '.metadata is mutated only on an object constructed in the same function')
+    r = RuleResult('M4', '.metadata is mutated only on an object constructed in the same function (followed through helpers that annotate their own argument); none of the read-only API functions is such a helper')
     n = 0
+
+    def fresh(t: Term) -> bool:
+        if isinstance(t, Ite):
+            return fresh(t.a) and fresh(t.b)
+        return isinstance(t, New) or (isinstance(t, Call) and isinstance(t.func, Ext) and t.func.name.endswith('evolve')) or (isinstance(t, Call) and isinstance(t.func, ClassRef))
+    writers: Dict[str, Tuple[FunctionInfo, str]] = {}   # function name -> (function, parameter whose metadata it mutates)
+    pending: List[Tuple[FunctionInfo, Term, str]] = []
     for fi in ctx.model.all_functions():
         src = ast.unparse(fi.node)
         if '.metadata' not in src:
@@ -413,11 +444,49 @@ def M4(ctx: Ctx) -> RuleResult:
                     continue
                 seen.add(repr(tgt))
                 n += 1
-                fresh = isinstance(tgt, New) or (isinstance(tgt, Call) and isinstance(tgt.func, Ext) and tgt.func.name.endswith('evolve')) or (isinstance(tgt, Call) and isinstance(tgt.func, ClassRef))
-                if fresh:
+                if fresh(tgt):
                     r.ok(f'{fi.qualname}: mutates metadata of its own fresh object {str(tgt)[:50]}')
+                elif isinstance(tgt, Sym) and tgt.name in fi.params() and fi.name not in M4_READ_ONLY_API:
+                    # an annotating helper: whoever calls it decides whose metadata changes
+                    writers[fi.name] = (fi, tgt.name)
+                    r.ok(f'{fi.qualname}: annotates its argument {tgt.name} (call sites checked)')
                 else:
                     r.fail(f'{fi.qualname}:metadata', f'mutates the metadata of {str(tgt)[:80]}, an object it did not construct', fi.where)
+    # call sites of the annotating helpers
+    rounds = 0
+    checked = set()
+    while writers and rounds < 4:
+        rounds += 1
+        new_writers: Dict[str, Tuple[FunctionInfo, str]] = {}
+        for fi in ctx.model.all_functions():
+            names = {x.attr if isinstance(x, ast.Attribute) else x.id for n_ in ast.walk(fi.node) if isinstance(n_, ast.Call) for x in [n_.func] if isinstance(x, (ast.Attribute, ast.Name))}
+            hit = [w for w in writers if w in names and writers[w][0] is not fi]
+            if not hit or (fi.key, tuple(sorted(hit))) in checked:
+                continue
+            checked.add((fi.key, tuple(sorted(hit))))
+            try:
+                outs = Evaluator(ctx.model, inline=lambda f, d: f.name not in writers and ctx.ev.inline(f, d)).run(fi)
+            except AnalysisError:
+                continue
+            for o in outs:
+                for c in list(o.effects) + list(o.trace) + ([o.value] if o.value is not None else []):
+                    for x in walk(c):
+                        if isinstance(x, Call) and call_name(x) in hit:
+                            wfi, wparam = writers[call_name(x)]
+                            ps = wfi.params()
+                            if wfi.cls is not None and wfi.kind == 'method' and ps and ps[0] == wparam:
+                                arg = call_recv(x)
+                            else:
+                                idx = ps.index(wparam) - (1 if wfi.cls is not None and wfi.kind == 'method' else 0)
+                                arg = x.args[idx] if 0 <= idx < len(x.args) else x.kw(wparam)
+                            n += 1
+                            if arg is not None and fresh(arg):
+                                r.ok(f'{fi.qualname}: {call_name(x)}() on its own fresh object')
+                            elif isinstance(arg, Sym) and arg.name in fi.params() and fi.name not in M4_READ_ONLY_API:
+                                new_writers[fi.name] = (fi, arg.name)
+                            else:
+                                r.fail(f'{fi.qualname}:{call_name(x)}', f'{call_name(x)}() changes the metadata of {str(arg)[:80]}, an object {fi.qualname} did not construct', fi.where)
+        writers = {k: v for k, v in new_writers.items()}
     r.floor('metadata mutation sites', n, 2)
     return r
 
